@@ -27,7 +27,7 @@ import (
 type C03Cut struct {
 	Round int    `json:"round"`         // 0 = DI, r>=1 = r-th TO2
 	Index int    `json:"index"`         // ordinal of the request within that protocol run
-	Kind  string `json:"kind"`          // drop_req | drop_resp | err_resp | restart_before | restart_after | disk_err
+	Kind  string `json:"kind"`          // drop_req | drop_resp | err_resp | restart_before | restart_after | disk_err | hmac_err | ctx_cancel_stmt
 	Arg   string `json:"arg,omitempty"` // restart mode (durable|volatile|kill|clean) or state method
 	Nth   int    `json:"nth,omitempty"` // disk_err: fail the n-th call of the method
 }
@@ -147,6 +147,23 @@ func (p *c03) Prepare(t *testing.T, tier string, seed uint64) {
 				}
 			}
 		}
+		// the request context is cancelled at the n-th SQL statement of the owner's
+		// handling of one TO2 request (sqlite owner)
+		// (any statement, or the n-th statement that touches the vouchers table)
+		for idx := 0; idx < 12; idx++ {
+			for _, nth := range []int{1, 2, 3, 5, 8, 13, 21, 34} {
+				pl := next(k)
+				pl.Rounds, pl.Sql = 2, true
+				pl.Cut = &C03Cut{Round: 1, Index: idx, Kind: "ctx_cancel_stmt", Nth: nth}
+				plans = append(plans, pl)
+			}
+			for nth := 1; nth <= 5; nth++ {
+				pl := next(k)
+				pl.Rounds, pl.Sql = 2, true
+				pl.Cut = &C03Cut{Round: 1, Index: idx, Kind: "ctx_cancel_stmt", Arg: "vouchers", Nth: nth}
+				plans = append(plans, pl)
+			}
+		}
 		// the device's HMAC engine fails its n-th finalisation during DI / TO2
 		for nth := 1; nth <= 3; nth++ {
 			for _, round := range []int{0, 1, 2} {
@@ -215,7 +232,7 @@ func (p *c03) Shrink(plan any) []any {
 		c.Rounds--
 		out = append(out, &c)
 	}
-	if pl.Sql && (pl.Cut == nil || !strings.HasPrefix(pl.Cut.Kind, "restart")) {
+	if pl.Sql && (pl.Cut == nil || (!strings.HasPrefix(pl.Cut.Kind, "restart") && pl.Cut.Kind != "ctx_cancel_stmt")) {
 		c := *pl
 		c.Sql = false
 		out = append(out, &c)
@@ -389,6 +406,13 @@ func (p *c03) Exec(env *Env, plan any) {
 					cutFired = true
 				case "restart_after":
 					pendingRestart = ev.To
+				case "ctx_cancel_stmt":
+					// the device goes away while the owner handles this request: the
+					// request context is cancelled at the n-th SQL statement
+					if n := s.Nodes[ev.To]; n != nil && n.Sql != nil {
+						ev.CancelAtStmt, ev.CancelStmtMatch = c.Nth, c.Arg
+						cutFired = true
+					}
 				}
 			}
 			reqIdx++
